@@ -149,7 +149,78 @@ func modelUvarint(b []byte) (uint64, int, int) {
 // value is what a typed read returned, in comparable form.
 type value struct {
 	u uint64 // numeric kinds: raw bits, sign-extended to 64 for signed kinds
-	b []byte // strings and byte reads
+	b []byte // strings and byte reads: a private copy taken at once
+	h handle // what the API actually handed out (not part of the comparison)
+}
+
+// handle is the object a *copying* read handed to the caller: the slice
+// returned by ReadN, the p filled by Read(p), the string of ReadString /
+// ReadLimitString. The caller owns it, so it must keep its content whatever is
+// done with the reader afterwards. ZReadN is documented as "no copy" (aliasing
+// the buffer is allowed) and therefore yields no handle.
+type handle struct {
+	raw   []byte
+	s     string
+	isStr bool
+}
+
+// keeper retains the handles of a script and re-examines them at its end.
+type keeper struct{ items []kept }
+
+type kept struct {
+	who, api string
+	idx      int
+	h        handle
+	at       []byte // content right after the read
+}
+
+func (k *keeper) keep(who string, idx int, api string, v value, err error) {
+	if err != nil || (v.h.raw == nil && !v.h.isStr) {
+		return
+	}
+	k.items = append(k.items, kept{who: who, api: api, idx: idx, h: v.h, at: append([]byte{}, v.b...)})
+}
+
+// check compares every retained handle with what it held right after its read.
+func (k *keeper) check(res *vkit.Result, part string) bool {
+	for _, it := range k.items {
+		cur := it.h.raw
+		if it.h.isStr {
+			cur = []byte(it.h.s)
+		}
+		if !bytes.Equal(cur, it.at) {
+			res.Failf(part+"/"+it.api+"/retained", "the value %s.%s returned for read %d was %x right after the read but is %x at the end of the script (changed by later operations on the same reader: the copying read handed out memory it still uses)", it.who, it.api, it.idx, clip(it.at), clip(cur))
+			return false
+		}
+	}
+	return true
+}
+
+// usesScratch reports whether reading the op goes through a fixed-width codec
+// (fixed widths >= 2 bytes, the u32 prefix of strings) or is itself a small
+// copying raw read: the operations an implementation-side scratch array serves.
+func usesScratch(o Op) bool {
+	return fixedWidth[o.K] >= 2 || isStr(o.K) || smallCopyRead(o)
+}
+
+// smallCopyRead: a raw field of 1..8 bytes read by ReadN.
+func smallCopyRead(o Op) bool {
+	n := readLen(o)
+	return apiName(o) == "ReadN" && (o.K == "bytes" || o.K == "readn") && n >= 1 && n <= 8
+}
+
+// disturbBuffer performs trailing writes and reads that reuse whatever scratch
+// memory the buffer may have.
+func disturbBuffer(bx *bytex.BufferX) {
+	bx.WriteU64(math.MaxUint64)
+	bx.WriteU32(0xa5a5a5a5)
+	bx.WriteU16(0x5a5a)
+	bx.WriteString("tail-0123456789abcdef")
+	bx.Write(bytes.Repeat([]byte{0xee}, 16))
+	_, _ = bx.ReadU64()
+	_, _ = bx.ReadN(8)
+	_, _ = bx.ReadU16()
+	_, _ = bx.ReadN(3)
 }
 
 func (v value) String() string {
@@ -342,21 +413,25 @@ func bufRead(bx *bytex.BufferX, o Op) (v value, err error, known bool) {
 		var s string
 		s, err = bx.ReadString()
 		v.b = []byte(s)
+		v.h = handle{s: s, isStr: true}
 	case "lstr":
 		var s string
 		s, err = bx.ReadLimitString(o.RL)
 		v.b = []byte(s)
+		v.h = handle{s: s, isStr: true}
 	case "bytes", "read", "readn", "zreadn":
 		n := readLen(o)
 		switch apiName(o) {
 		case "Read":
 			p := make([]byte, n)
 			err = bx.Read(p)
-			v.b = p
+			v.b = append([]byte{}, p...)
+			v.h.raw = p
 		case "ReadN":
 			var p []byte
 			p, err = bx.ReadN(int(n))
 			v.b = append([]byte{}, p...)
+			v.h.raw = p
 		default:
 			var p []byte
 			p, err = bx.ZReadN(int(n))
@@ -414,21 +489,25 @@ func rdRead(rx *bytex.ReaderX, o Op) (v value, err error, known bool) {
 		var s string
 		s, err = rx.ReadString()
 		v.b = []byte(s)
+		v.h = handle{s: s, isStr: true}
 	case "lstr":
 		var s string
 		s, err = rx.ReadLimitString(o.RL)
 		v.b = []byte(s)
+		v.h = handle{s: s, isStr: true}
 	case "bytes", "read", "readn", "zreadn":
 		n := readLen(o)
 		switch apiName(o) {
 		case "Read":
 			p := make([]byte, n)
 			err = rx.Read(p)
-			v.b = p
+			v.b = append([]byte{}, p...)
+			v.h.raw = p
 		case "ReadN":
 			var p []byte
 			p, err = rx.ReadN(int(n))
 			v.b = append([]byte{}, p...)
+			v.h.raw = p
 		default:
 			var p []byte
 			p, err = rx.ZReadN(int(n))
@@ -565,10 +644,10 @@ func genLimit(t *rapid.T, n int, label string) uint32 {
 	}
 }
 
-var kindsAll = []string{"bool", "u8", "u16", "i16", "u32", "i32", "u64", "i64", "vu32", "vi32", "vu64", "vi64", "f64", "str", "str", "lstr", "lstr", "bytes"}
+var kindsAll = []string{"bool", "u8", "u16", "i16", "u32", "i32", "u64", "i64", "vu32", "vi32", "vu64", "vi64", "f64", "str", "str", "lstr", "lstr", "bytes", "bytes", "bytes"}
 
 // kindsCommon are the kinds ReaderX can read as well (no varints).
-var kindsCommon = []string{"bool", "u8", "u16", "i16", "u32", "i32", "u64", "i64", "f64", "str", "str", "lstr", "lstr", "bytes"}
+var kindsCommon = []string{"bool", "u8", "u16", "i16", "u32", "i32", "u64", "i64", "f64", "str", "str", "lstr", "lstr", "bytes", "bytes", "bytes"}
 
 // genWriteOp draws one typed write with boundary values. okLimits forces the
 // write limit and read limit of limit-strings to admit the value.
@@ -603,6 +682,12 @@ func genWriteOp(t *rapid.T, kinds []string, okLimits bool) Op {
 			}
 		}
 	case k == "bytes":
+		if rapid.IntRange(0, 2).Draw(t, "rawsmall") > 0 {
+			// a raw field of 1..8 bytes, mostly read by the copying ReadN: the size of the fixed-width scratch arrays
+			o.B = rapid.SliceOfN(rapid.Byte(), 1, 8).Draw(t, "rawbytes")
+			o.Via = rapid.SampledFrom([]string{"readn", "readn", "readn", "read", "zreadn"}).Draw(t, "via")
+			break
+		}
 		o.B = genStrBytes(t, "s")
 		o.Via = rapid.SampledFrom([]string{"read", "readn", "zreadn", "zreadn"}).Draw(t, "via")
 		if len(o.B) == 0 && o.Via == "readn" {
@@ -704,9 +789,18 @@ func ExecRT(c CaseRT) *vkit.Result {
 		written = append(written, o)
 	}
 	complete := true
+	var held keeper
+	smallRawSeen := false
 	for i, o := range written {
 		got, err, _ := bufRead(bx, o)
 		api := apiName(o)
+		held.keep("BufferX", i, api, got, err)
+		if err == nil {
+			if smallRawSeen && usesScratch(o) {
+				res.Class("raw<=8-then-fixed-width")
+			}
+			smallRawSeen = smallRawSeen || smallCopyRead(o)
+		}
 		if o.K == "lstr" && uint64(len(o.B)) > uint64(o.RL) {
 			// the read limit is below the written length: the read must refuse
 			res.Class("read-limit<len")
@@ -742,6 +836,15 @@ func ExecRT(c CaseRT) *vkit.Result {
 		}
 		res.Class("read-back-complete")
 	}
+	// whatever a copying read handed out belongs to the caller: it must still hold
+	// the written value after all later reads and after trailing writes
+	disturbBuffer(bx)
+	if !held.check(res, "roundtrip") {
+		return res
+	}
+	if len(held.items) > 0 {
+		res.Class("retained-values-rechecked")
+	}
 	nstr := classifyOps(res, written)
 	res.NonTrivial = len(written) >= 3 && nstr >= 1
 	return res
@@ -754,6 +857,7 @@ type RwStep struct {
 	K   string `json:"k"` // w (typed write W), r (consume N bytes), rw (ReWrite Pos,B), rw32 (ReWriteU32 Pos,U)
 	W   *Op    `json:"w,omitempty"`
 	N   int    `json:"n,omitempty"`
+	Cp  bool   `json:"cp,omitempty"` // r: consume with the copying ReadN (kept and re-examined at the end) instead of ZReadN
 	Pos int    `json:"pos,omitempty"`
 	B   []byte `json:"b,omitempty"`
 	U   uint32 `json:"u,omitempty"`
@@ -799,7 +903,7 @@ func GenRW(t *rapid.T) CaseRW {
 		case kind == 4:
 			k := rapid.IntRange(0, length).Draw(t, "consume")
 			length -= k
-			c.Steps = append(c.Steps, RwStep{K: "r", N: k})
+			c.Steps = append(c.Steps, RwStep{K: "r", N: k, Cp: rapid.Bool().Draw(t, "copyread")})
 		case kind <= 7:
 			maxLen := length
 			if maxLen > 12 {
@@ -848,6 +952,7 @@ func ExecRW(c CaseRW) *vkit.Result {
 	res := &vkit.Result{}
 	bx := newBuffer(c.Ctor&1, c.Size)
 	var m []byte // model: the unread region
+	var held keeper
 	effective, framed := 0, 0
 	sync := func(site, what string) bool {
 		got := bx.Bytes()
@@ -878,9 +983,18 @@ func ExecRW(c CaseRW) *vkit.Result {
 				res.Skip("consume-outside-region")
 				continue
 			}
-			got, err := bx.ZReadN(s.N)
+			var got []byte
+			var err error
+			api := "ZReadN"
+			if s.Cp && s.N >= 1 {
+				api = "ReadN"
+				got, err = bx.ReadN(s.N)
+				held.keep("BufferX", i, api, value{b: got, h: handle{raw: got}}, err)
+			} else {
+				got, err = bx.ZReadN(s.N)
+			}
 			if err != nil || !bytes.Equal(got, m[:s.N]) {
-				return res.Failf("rewrite/ZReadN", "step %d: ZReadN(%d) = %x, %v; model %x", i, s.N, clip(got), err, clip(m[:s.N]))
+				return res.Failf("rewrite/"+api, "step %d: %s(%d) = %x, %v; model %x", i, api, s.N, clip(got), err, clip(m[:s.N]))
 			}
 			m = m[s.N:]
 			res.Class("rewrite-after-consume")
@@ -945,6 +1059,14 @@ func ExecRW(c CaseRW) *vkit.Result {
 	rest, err := bx.ZReadN(len(m))
 	if err != nil || !bytes.Equal(rest, m) || bx.Len() != 0 {
 		return res.Failf("rewrite/final", "draining %d bytes: err=%v, Len now %d, first difference at %d", len(m), err, bx.Len(), firstDiff(rest, m))
+	}
+	// bytes taken out by the copying read are the caller's: later rewrites, writes and reads must not reach them
+	disturbBuffer(bx)
+	if !held.check(res, "rewrite") {
+		return res
+	}
+	if len(held.items) > 0 {
+		res.Class("retained-values-rechecked")
 	}
 	res.NonTrivial = len(c.Steps) >= 3 && effective >= 1 && framed >= 1
 	return res
@@ -1046,9 +1168,11 @@ func ExecTrunc(c CaseTrunc) *vkit.Result {
 	r := bytex.NewReadableBufferX(append([]byte{}, enc[:cut]...))
 	start := 0
 	sawFailure := false
+	var held keeper
 	for i, o := range ops {
 		api := apiName(o)
 		got, err, _ := bufRead(r, o)
+		held.keep("BufferX", i, api, got, err)
 		if ends[i] <= cut { // wholly present: must be returned
 			if err != nil {
 				return res.Failf("truncated/"+api+"/present", "read %d (%s, bytes [%d,%d) of %d, cut at %d): unexpected error %v", i, api, start, ends[i], len(enc), cut, err)
@@ -1075,6 +1199,10 @@ func ExecTrunc(c CaseTrunc) *vkit.Result {
 			return res.Failf("truncated/Len", "all %d values were present (cut %d of %d) but Len() = %d after reading them", len(ops), cut, len(enc), r.Len())
 		}
 		res.Class("nothing-cut")
+	}
+	disturbBuffer(r)
+	if !held.check(res, "truncated") {
+		return res
 	}
 	nstr := classifyOps(res, ops)
 	res.NonTrivial = len(ops) >= 3 && nstr >= 1 && cut > 0 && cut < len(enc)
@@ -1344,6 +1472,7 @@ func ExecArb(c CaseArb) *vkit.Result {
 	off := 0
 	executed, strReads := 0, 0
 	stopped := false
+	var held keeper
 	for i, o := range c.Reads {
 		if l := readLen(o); l > maxAlloc || (o.K == "read" && l < 0) {
 			res.Skip("read-size-out-of-bounds")
@@ -1356,6 +1485,7 @@ func ExecArb(c CaseArb) *vkit.Result {
 			continue
 		}
 		api := apiName(o)
+		held.keep("BufferX", i, api, got, err)
 		executed++
 		if isStr(o.K) {
 			strReads++
@@ -1397,6 +1527,10 @@ func ExecArb(c CaseArb) *vkit.Result {
 			return res.Failf("arbitrary/Len", "after %d successful reads consuming %d of %d bytes Len() = %d", executed, off, len(data), bx.Len())
 		}
 		res.Class("script-completed")
+	}
+	disturbBuffer(bx)
+	if !held.check(res, "arbitrary") {
+		return res
 	}
 	res.NonTrivial = executed >= 3 && strReads >= 1
 	return res
@@ -1622,6 +1756,22 @@ func ExecDiff(c CaseDiff) *vkit.Result {
 		res.Class("eof-with-last-bytes")
 	}
 	executed, strReads, splitFixed := 0, 0, false
+	var held keeper
+	smallRawSeen := false
+	// finish: the retained results of both readers are re-examined after the
+	// script and after further traffic (trailing writes on the buffer, more
+	// stream data for the reader)
+	finish := func() *vkit.Result {
+		disturbBuffer(bx)
+		src.data = append(src.data, bytes.Repeat([]byte{0xee}, 24)...)
+		_, _ = rx.ReadN(8)
+		_, _ = rx.ReadU64()
+		_, _ = rx.ReadN(3)
+		if held.check(res, "diff") && len(held.items) > 0 {
+			res.Class("retained-values-rechecked")
+		}
+		return res
+	}
 	for i, o := range c.Reads {
 		if o.K == "bytes" {
 			o = readOf(o)
@@ -1650,6 +1800,8 @@ func ExecDiff(c CaseDiff) *vkit.Result {
 		}
 		vr, er, _ := rdRead(rx, o)
 		api := apiName(o)
+		held.keep("BufferX", i, api, vb, eb)
+		held.keep("ReaderX", i, api, vr, er)
 		if api == "ReadU8" {
 			api = "ReadU8|ReadByte"
 		}
@@ -1670,6 +1822,10 @@ func ExecDiff(c CaseDiff) *vkit.Result {
 		if !sameValue(vb, vr) {
 			return res.Failf("diff/"+api, "read %d: %s at offset %d, source plan %v: BufferX decoded %s, ReaderX decoded %s", i, describe(o), off, c.Chunk.Plan, vb, vr)
 		}
+		if smallRawSeen && usesScratch(o) {
+			res.Class("raw<=8-then-fixed-width")
+		}
+		smallRawSeen = smallRawSeen || smallCopyRead(o)
 		end := len(data) - bx.Len()
 		// was a fixed-width field of this read split by the source?
 		fw := fixedWidth[o.K]
@@ -1693,7 +1849,7 @@ func ExecDiff(c CaseDiff) *vkit.Result {
 		}
 	}
 	res.NonTrivial = executed >= 3 && strReads >= 1 && splitFixed
-	return res
+	return finish()
 }
 
 func describe(o Op) string {
@@ -1779,21 +1935,21 @@ func DecodeChunking(b []byte) Chunking {
 
 var PartRT = &vkit.Part[CaseRT]{
 	Property: Property, Name: "roundtrip",
-	Rule:  "rapid: a script of 1-14 typed writes (bool,u8,u16/i16,u32/i32,u64/i64,varU32/I32/U64/I64,f64 from raw bits incl. NaN payloads/+-Inf/-0, string incl. \"\" / non-UTF-8 / >1 KiB, limit-string with write and read limit </=/> len, raw bytes read back by Read/ReadN/ZReadN) with boundary values on NewBufferX/NewSizedBufferX/NewReadableBufferX(nil); the same reads must return the written values bit for bit, then Len()==0 and a further read fails; WriteLimitString errs exactly when len>limit and then writes nothing. Non-trivial: >= 3 accepted writes with >= 1 string; distinct = distinct case JSON",
+	Rule:  "rapid: a script of 1-14 typed writes (bool,u8,u16/i16,u32/i32,u64/i64,varU32/I32/U64/I64,f64 from raw bits incl. NaN payloads/+-Inf/-0, string incl. \"\" / non-UTF-8 / >1 KiB, limit-string with write and read limit </=/> len, raw bytes read back by Read/ReadN/ZReadN) with boundary values on NewBufferX/NewSizedBufferX/NewReadableBufferX(nil); the same reads must return the written values bit for bit, then Len()==0 and a further read fails; WriteLimitString errs exactly when len>limit and then writes nothing; raw fields are 1..8 bytes read by ReadN two times out of three, and every slice/string handed out by a copying read (ReadN, the p of Read(p), ReadString/ReadLimitString; not ZReadN, which is documented as no-copy) is kept and compared again at the end of the script, after all later reads and after trailing writes and reads on the same buffer. Non-trivial: >= 3 accepted writes with >= 1 string; distinct = distinct case JSON",
 	Quick: 60000, Thorough: 150000,
 	Gen: GenRT, Exec: ExecRT,
 }
 
 var PartRW = &vkit.Part[CaseRW]{
 	Property: Property, Name: "rewrite",
-	Rule:  "rapid: 2-12 steps of typed write / consume k bytes / ReWrite(pos,bytes) / ReWriteU32(pos,v) with pos and length inside the unread region (0, end, random; whole region; empty), folded over the model length; after every rewrite Bytes() must equal a byte-slice model in which exactly [pos,pos+len) changed (ReWriteU32: the four bytes read back as v), writes must not disturb earlier bytes, and draining returns the model. Non-trivial: >= 3 steps, >= 1 rewrite that alters a byte and >= 1 rewrite smaller than the region; distinct = distinct case JSON",
+	Rule:  "rapid: 2-12 steps of typed write / consume k bytes / ReWrite(pos,bytes) / ReWriteU32(pos,v) with pos and length inside the unread region (0, end, random; whole region; empty), folded over the model length; after every rewrite Bytes() must equal a byte-slice model in which exactly [pos,pos+len) changed (ReWriteU32: the four bytes read back as v), writes must not disturb earlier bytes, and draining returns the model; bytes consumed by the copying ReadN are kept and must be unchanged at the end. Non-trivial: >= 3 steps, >= 1 rewrite that alters a byte and >= 1 rewrite smaller than the region; distinct = distinct case JSON",
 	Quick: 45000, Thorough: 100000,
 	Gen: GenRW, Exec: ExecRW,
 }
 
 var PartTrunc = &vkit.Part[CaseTrunc]{
 	Property: Property, Name: "truncated",
-	Rule:  "rapid: a script of 1-10 typed writes is encoded by BufferX itself (op boundaries = Len() after each write), cut at an op boundary / strictly inside an op / one byte short / anywhere, and read by a fresh BufferX: every value wholly before the cut must come back, the first read that reaches past it must return an error and never a value (then stop), no panic. Non-trivial: >= 3 ops with >= 1 string and 0 < cut < length; distinct = distinct case JSON",
+	Rule:  "rapid: a script of 1-10 typed writes is encoded by BufferX itself (op boundaries = Len() after each write), cut at an op boundary / strictly inside an op / one byte short / anywhere, and read by a fresh BufferX: every value wholly before the cut must come back, the first read that reaches past it must return an error and never a value (then stop), no panic; values handed out by copying reads are re-examined at the end. Non-trivial: >= 3 ops with >= 1 string and 0 < cut < length; distinct = distinct case JSON",
 	Quick: 45000, Thorough: 100000,
 	Gen: GenTrunc, Exec: ExecTrunc,
 }
@@ -1807,7 +1963,7 @@ var PartArb = &vkit.Part[CaseArb]{
 
 var PartDiff = &vkit.Part[CaseDiff]{
 	Property: Property, Name: "differential",
-	Rule:  "rapid: payload and read script as in part arbitrary but restricted to what both readers expose (typed reads, strings, Read(p), ReadN/ZReadN with n in {-1,0,1,..}); the source io.Reader fragments the payload by a chunk plan (1 byte at a time, fixed k, random splits, boundaries aimed inside fixed-width fields, all at once; zero-length reads interleaved; optionally io.EOF delivered with the last bytes); ReaderX over that source must yield the same sequence of (value | error-ness) as BufferX over the same bytes, compared up to and including the first failing read. Guards: unlimited ReadString / admitted ReadLimitString only when the length prefix <= 1 MiB, raw reads <= 1 MiB (skips counted). Non-trivial: >= 3 reads executed incl. >= 1 string and a chunk boundary strictly inside a fixed-width field (or string length prefix) that was read; distinct = distinct case JSON",
+	Rule:  "rapid: payload and read script as in part arbitrary but restricted to what both readers expose (typed reads, strings, Read(p), ReadN/ZReadN with n in {-1,0,1,..}); the source io.Reader fragments the payload by a chunk plan (1 byte at a time, fixed k, random splits, boundaries aimed inside fixed-width fields, all at once; zero-length reads interleaved; optionally io.EOF delivered with the last bytes); ReaderX over that source must yield the same sequence of (value | error-ness) as BufferX over the same bytes, compared up to and including the first failing read; the slices and strings both readers handed out by copying reads are kept and must be unchanged after the script and after further traffic (trailing writes on the buffer, more stream data for the reader). Guards: unlimited ReadString / admitted ReadLimitString only when the length prefix <= 1 MiB, raw reads <= 1 MiB (skips counted). Non-trivial: >= 3 reads executed incl. >= 1 string and a chunk boundary strictly inside a fixed-width field (or string length prefix) that was read; distinct = distinct case JSON",
 	Quick: 120000, Thorough: 300000,
 	Gen: GenDiff, Exec: ExecDiff,
 }
